@@ -160,6 +160,14 @@ def run_case(ctx, g, rng):
             nested = [b for b in allu if any(a != b and b.startswith(a) for a in allu)]
             if nested and rng.random() < 0.25:
                 u = rng.choice(nested) + rng.choice(["", "", "1"])  # a registered URI prefix inside another one, often bare
+            elif rng.random() < 0.15:
+                # identifiers.org style: the local identifier repeats a prefix or synonym of the record ("…/chebi/CHEBI:1234")
+                # or of another record, or is a whole CURIE / URI - an identifier like any other (seed C18-P)
+                cur = list(spec.snapshot(conv))
+                r_ = rng.choice(cur)
+                inner = rng.choice(spec.all_p(rng.choice([r_, r_, rng.choice(cur)]))) + rng.choice([":", ":", "_", "/"]) + rng.choice(["1", "0001", ""])
+                u = rng.choice(spec.all_u(r_)) + rng.choice([inner, inner, rng.choice(allu) + "1"])
+                S.counters["wl:identifiers-that-repeat-a-prefix"] += 1
             else:
                 u = (rng.choice(allu) + rng.choice(IDS)) if rng.random() < 0.75 else "http://unknown.org/" + rng.choice(IDS[:3])
             if valid_iri(u) and u not in uris:
